@@ -164,12 +164,20 @@ def run(ctx):
     for hay, olson in zones:
         for z, t in zone_cases(olson, deltas, us_cycle):
             cases.append((hay, z, t))
+    # every zone at one instant for every distinct UTC offset it ever had (sub-hour, negative sub-hour, LMT-era offsets included)
+    for hay, olson in tzmap:
+        tz = pytz.timezone(olson)
+        seen_off = set()
+        for t, info in zip(getattr(tz, '_utc_transition_times', []), getattr(tz, '_transition_info', [])):
+            if 1902 <= t.year <= 2037 and info[0] not in seen_off:
+                seen_off.add(info[0])
+                cases.append((hay, olson, t + datetime.timedelta(hours=3, microseconds=7)))
     if not thorough:
         for hay, olson in tzmap:       # every zone at a few instants
             for t in (datetime.datetime(2020, 1, 15, 12, 0, 0, 1), datetime.datetime(2020, 7, 15, 12), datetime.datetime(1975, 3, 30, 1, 30), datetime.datetime(2030, 10, 27, 0, 59, 59, 999999)):
                 cases.append((hay, olson, t))
     ctx.coverage['rule'] = ('%d mapped zones (%s) x every tabulated transition instant 1902..2037 x {-30 min, -1 s, 0, +1 s, +30 min} x microseconds cycling through {0, 1, 999999, 500000}; '
-                            'all %d zones at 4 further instants; fixed-offset tzinfo for every whole-minute offset -14 h .. +14 h at ordinary / ambiguous / skipped local times; pytz zones attached without localize(); both formats; '
+                            'all %d zones at one instant per distinct UTC offset they ever had and at 4 further instants; fixed-offset tzinfo for every whole-minute offset -14 h .. +14 h at ordinary / ambiguous / skipped local times; pytz zones attached without localize(); both formats; '
                             'distinct by (zone, instant)' % (len(zones), 'all' if thorough else 'chosen by seed', len(tzmap)))
     ctx.coverage['exhaustive'] = bool(thorough)
     pool = zincsim.pool()
